@@ -185,4 +185,95 @@ theorem lookup_hit {tab : List Bytes} (hdist : distinctBefore tab = true) {k : N
 theorem tables_distinct : distinctBefore shortMonths = true ∧ distinctBefore longMonths = true ∧
     distinctBefore shortDays = true ∧ distinctBefore longDays = true := by decide
 
+/-! ## what an element writes into Go's locals -/
+
+def pivotYear (y : Nat) : Int := if y % 100 ≥ 69 then ((y % 100 : Nat) : Int) + 1900 else ((y % 100 : Nat) : Int) + 2000
+
+def setStdX (s : Std) (i : XInst) (f : F) : F :=
+  match s with
+  | .longYear => { f with year := i.year }
+  | .year => { f with year := pivotYear i.year }
+  | .month | .longMonth | .numMonth | .zeroMonth => { f with month := i.month }
+  | .day | .underDay | .zeroDay => { f with day := i.day }
+  | .hour => { f with hour := i.hour }
+  | .hour12 | .zeroHour12 => { f with hour := hour12Of i.hour }
+  | .zeroMinute => { f with min := i.min }
+  | .zeroSecond => { f with sec := i.sec }
+  | .frac9 _ => { f with nsec := i.nsec }
+  | .pm => if i.hour ≥ 12 then { f with pmS := true } else { f with am := true }
+  | .numTZ | .numColonTZ => { f with zoneOffset := some (i.offMin * 60) }
+  | .tz => if i.zname = bUTC then { f with zUTC := true } else { f with zoneName := some i.zname }
+  | _ => f
+
+def projectFX (items : List (Bytes × Std)) (i : XInst) (f : F) : F := items.foldl (fun f it => setStdX it.2 i f) f
+
+/-- Go's epilogue applied to the fields the layout carries -/
+def projectX (L : Layout) (i : XInst) : PR := finish (projectFX L.items i {})
+
+/-- the elements of the format lists -/
+def inScope (s : Std) : Bool := (rxAtomsOfStd s).isSome
+
+/-! ## what must not follow an element -/
+
+def badSet (s : Std) (next : Option Std) : BSet :=
+  match s with
+  | .day | .numMonth | .hour12 | .underDay | .frac9 _ => dS
+  | .zeroSecond => (match next with | some (.frac9 _) => [] | _ => [(44, 44), (46, 46)])
+  | .tz => [(65, 90), (43, 43), (45, 45)]
+  | _ => []
+
+def FollowOK (s : Std) (next : Option Std) (R : Bytes) : Prop := ∀ c, R.head? = some c → inCls (badSet s next) c = false
+
+theorem plain_vals {txt R : Bytes} (hne : txt ≠ []) (hh : txt.head? ≠ some 32) {val : Bytes}
+    (hv : val = txt ++ R ∨ val = cutspace (txt ++ R)) : val = txt ++ R := by
+  rcases hv with h | h
+  · exact h
+  · rw [h]; apply cutspace_of_head; rw [head?_append_of_ne hne]; exact hh
+
+theorem validInst_of_validX {i : XInst} (hi : ValidX i) : ValidInst i.toInst := by
+  obtain ⟨hy1, hy2, hm1, hm12, hd1, hdd, hh, hmi, hse, _⟩ := hi
+  exact ⟨by omega, hm1, hm12, hd1, hdd, hh, hmi, hse⟩
+
+theorem pad2_ne_nil (n : Nat) : pad2 n ≠ [] := by simp [pad2]
+theorem pad2_head (n : Nat) : (pad2 n).head? ≠ some 32 := by
+  simp only [pad2, List.head?_cons, ne_eq, Option.some.injEq]; exact dig_ne_blank _
+
+theorem not_digit_of_follow {R : Bytes} (h : ∀ c, R.head? = some c → inCls dS c = false) :
+    R = [] ∨ ∃ c t, R = c :: t ∧ isDig c = false := by
+  cases R with
+  | nil => exact Or.inl rfl
+  | cons c t => exact Or.inr ⟨c, t, rfl, by rw [← inCls_dS]; exact h c rfl⟩
+
+theorem getnum_one (n : Nat) (R : Bytes) (hR : R = [] ∨ ∃ c t, R = c :: t ∧ isDig c = false) :
+    getnum (dig n :: R) false = some (((n % 10 : Nat) : Int), R) := by
+  rcases hR with h | ⟨c, t, h, hc⟩
+  · subst h; simp [getnum, isDig_dig, dval_dig]
+  · subst h; simp [getnum, isDig_dig, dval_dig, hc]
+
+theorem getnum_num12 (n : Nat) (hn : n < 100) (R : Bytes) (hR : R = [] ∨ ∃ c t, R = c :: t ∧ isDig c = false) :
+    getnum (num12 n ++ R) false = some ((n : Int), R) := by
+  simp only [num12]; split
+  · rename_i h10
+    have := getnum_one n R hR
+    have e : n % 10 = n := by omega
+    rw [e] at this; simpa using this
+  · exact getnum_pad2 n hn false R
+
+theorem num12_ne_nil (n : Nat) : num12 n ≠ [] := by simp only [num12]; split <;> simp [pad2]
+theorem num12_head (n : Nat) : (num12 n).head? ≠ some 32 := by
+  simp only [num12]; split
+  · simp only [List.head?_cons, ne_eq, Option.some.injEq]; exact dig_ne_blank _
+  · exact pad2_head n
+
+theorem atoi_pad2 (k : Nat) (hk : k < 100) : atoi (pad2 k) = some (k : Int) := by
+  have d1 := isDig_dig (k / 10)
+  have h45 : (dig (k / 10) == 45) = false := by
+    apply beq_false_of_ne; intro e; rw [e] at d1; simp [isDig] at d1
+  have h43 : (dig (k / 10) == 43) = false := by
+    apply beq_false_of_ne; intro e; rw [e] at d1; simp [isDig] at d1
+  simp only [atoi, pad2, h45, h43, Bool.false_eq_true, if_false, List.isEmpty_cons, List.all_cons, List.all_nil, isDig_dig,
+    Bool.and_self, Bool.not_true, Bool.or_self, List.foldl_cons, List.foldl_nil, dval_dig]
+  congr 1
+  omega
+
 end Logrange.Date
